@@ -19,6 +19,8 @@ pub fn run_case(case: &Value) -> Value {
     crate::PANIC_LOC.with(|p| p.borrow_mut().clear());
     let r = catch_unwind(AssertUnwindSafe(|| match kind {
         "prog" => run_prog(case),
+        "codec_probe" => codec_probe(),
+        "codec_sweep" => codec_sweep(case),
         _ => json!({"how":"tool-error","msg":format!("unknown kind {}", kind)}),
     }));
     match r {
@@ -148,8 +150,6 @@ pub fn run_prog(case: &Value) -> Value {
         let consts: Vec<Value> = bytecode.constants.iter().map(|c| proj(c, 0)).collect();
         res["consts"] = json!(consts);
     }
-    let main_ptr = Rc::as_ptr(&Rc::new(0u8)) as usize; // placeholder, replaced below
-    let _ = main_ptr;
 
     // run
     let globals = vec![Rc::new(Object::Null); GLOBALS_SIZE];
@@ -205,4 +205,79 @@ pub fn run_prog(case: &Value) -> Value {
         }
     }
     res
+}
+
+
+// ---------------------------------------------------------------- bytecode codec (C14)
+use crate::code::definitions::{lookup, make, read_operands};
+use crate::code::opcode::Opcode;
+
+/// encodings of probe operands for every opcode byte 0..=63 (the width table of the real
+/// encoder is derived from them)
+pub fn codec_probe() -> Value {
+    let mut v = Vec::new();
+    for op in 0u8..64 {
+        let o = Opcode::from(op);
+        if matches!(o, Opcode::Invalid) {
+            v.push(json!({"op": op, "defined": false}));
+            continue;
+        }
+        let enc = make(o, &[0x0102, 0x0304, 0x0506], 1);
+        v.push(json!({"op": op, "defined": true, "enc": enc.code, "lines": enc.lines.len()}));
+    }
+    json!({"how":"ok","probe":v})
+}
+
+/// every opcode x every operand value of its widths through the real make / read_operands.
+/// Reports, per opcode, how many in-range operand tuples round-trip, the first that does not,
+/// and a stratified sample of (operands, bytes, decoded) records for validation by TLC.
+pub fn codec_sweep(case: &Value) -> Value {
+    let widths: Vec<Vec<u64>> = serde_json::from_value(case["widths"].clone()).unwrap();
+    let stride = case.get("sample_stride").and_then(|s| s.as_u64()).unwrap_or(997);
+    let mut per_op = Vec::new();
+    let mut sample = Vec::new();
+    let mut counter: u64 = 0;
+    for (op, ws) in widths.iter().enumerate() {
+        let o = Opcode::from(op as u8);
+        let def = match lookup(op as u8) {
+            Ok(d) => d,
+            Err(_) => continue,
+        };
+        let lim = |w: u64| -> u64 { if w == 1 { 256 } else { 65536 } };
+        let n1 = if !ws.is_empty() { lim(ws[0]) } else { 1 };
+        let n2 = if ws.len() > 1 { lim(ws[1]) } else { 1 };
+        let mut ok = 0u64;
+        let mut first_bad = Value::Null;
+        for a in 0..n1 {
+            for b in 0..n2 {
+                let operands: Vec<usize> = match ws.len() {
+                    0 => vec![],
+                    1 => vec![a as usize],
+                    _ => vec![a as usize, b as usize],
+                };
+                let enc = make(o, &operands, 7);
+                let good = if enc.code.is_empty() {
+                    false
+                } else {
+                    let (dec, read) = read_operands(def, &enc.code[1..]);
+                    enc.code[0] == op as u8
+                        && dec == operands
+                        && read + 1 == enc.code.len()
+                        && enc.lines.len() == enc.code.len()
+                };
+                if good {
+                    ok += 1;
+                } else if first_bad.is_null() {
+                    first_bad = json!({"operands": operands, "enc": enc.code});
+                }
+                counter += 1;
+                if counter % stride == 0 || a + 1 == n1 && b + 1 == n2 || (a == 0 && b == 0) {
+                    let dec = if enc.code.is_empty() { (vec![], 0) } else { read_operands(def, &enc.code[1..]) };
+                    sample.push(json!({"op": op, "operands": operands, "enc": enc.code, "dec": dec.0, "read": dec.1}));
+                }
+            }
+        }
+        per_op.push(json!({"op": op, "tuples": n1 * n2, "ok": ok, "first_bad": first_bad}));
+    }
+    json!({"how":"ok","per_op":per_op,"sample":sample})
 }
